@@ -1,12 +1,14 @@
+use pvh::ast::*;
+use pvh::run::{self, Limits, Mode};
 fn main() {
-    let text = std::fs::read_to_string("/tmp/c14run.out").unwrap();
-    for line in text.lines() {
-        if let Some(rest) = line.strip_prefix("CASE ") {
-            if let Some((id, js)) = rest.split_once(' ') {
-                if let Err(e) = serde_json::from_str::<pvh::pipeline::CaseOut>(js) {
-                    println!("case {} fails: {} :: {}", id, e, &js[..js.len().min(600)]);
-                }
-            }
-        }
+    pvh::guard::install();
+    let cl = Goal::Closure(vec![Goal::Fresh(vec![5], vec![Goal::Call(Rel::Member, vec![Term::Var(5), Term::ints(&[1, 2])])])]);
+    for p in [
+        Program { nq: 1, body: vec![cl.clone(), cl.clone()] },
+        Program { nq: 1, body: vec![Goal::Conj(vec![cl.clone(), cl.clone()])] },
+        Program { nq: 1, body: vec![Goal::Conde(vec![vec![cl.clone(), cl.clone()]])] },
+    ] {
+        let out = run::run(&p, Mode::Bfs, Limits::all());
+        println!("{} -> {} answers", p.show(), out.answers.len());
     }
 }
